@@ -1,7 +1,7 @@
 (* C02 -- HTML auto-escaping is sound: unsafe data is escaped exactly once.
    Statements only; proofs in MJ.C02.Proofs.  Model: Lang/Interp.v run with esc = true (see C02/Spec.v
    for the map to utils.rs / output.rs / filters.rs / macro_object.rs and for safe_free, good_binds). *)
-From MJ Require Import Common.Base Lang.Syntax Lang.Meta Lang.Interp C02.Spec C02.Out C02.Proofs.
+From MJ Require Import Common.Base Lang.Syntax Lang.Meta Lang.Interp C02.Spec C02.Out C02.Proofs C02.Names C02.NamesProofs.
 
 (* For every program of the core fragment that uses no safe-marking construct (`safe`, autoescape
    blocks) and whose raw template text has none of the four metacharacters - string literals,
@@ -80,6 +80,41 @@ Theorem escape_filter_then_print : forall m esc s args,
   exists v, do_filter m esc F_escape (VStr false s) args = Ok v /\ render_value true v = html_escape s.
 Proof. exact escape_then_print. Qed.
 
+(* ---- which templates are auto-escaped: the default callback, name -> mode (C02/Names.v) ---- *)
+
+(* the mode is the documented table applied to the extension of the name once ONE trailing ignored
+   suffix (.j2 / .jinja2 / .jinja) is removed; a name has extension e when it ends in '.' e, whatever
+   precedes the dot (nothing, a directory, more dots), or is e itself *)
+Theorem default_mode_spec : forall name,
+  (default_mode name = MHtml <-> exists e, In e html_exts /\ has_ext (strip_ignored name) e) /\
+  (default_mode name = MJson <-> exists e, In e json_exts /\ has_ext (strip_ignored name) e).
+Proof. exact default_mode_spec_proof. Qed.
+
+Theorem one_ignored_suffix_is_removed : forall stem suf, In suf IGNORED -> strip_ignored (stem ++ suf) = stem.
+Proof. exact strip_ignored_suffix. Qed.
+
+Theorem no_ignored_suffix_nothing_removed : forall name,
+  (forall suf stem, In suf IGNORED -> name <> stem ++ suf) -> strip_ignored name = name.
+Proof. exact strip_ignored_none. Qed.
+
+(* every name ending in .html / .htm / .xml is HTML-escaped, for every prefix - the empty one included
+   (".html", "partials/.html", "feeds/.xml") -, also with one ignored suffix behind it *)
+Theorem dot_ext_is_html : forall pre e, In e html_exts ->
+  default_mode (pre ++ dot :: e) = MHtml /\ forall suf, In suf IGNORED -> default_mode (pre ++ dot :: e ++ suf) = MHtml.
+Proof. exact dot_ext_is_html_proof. Qed.
+
+(* ".html", "partials/.html", "x.html.j2" are escaped; "x.HTML", "x.html.", "a.html.j2.jinja", "" are not *)
+Example default_mode_examples :
+  default_mode [46; 104; 116; 109; 108] = MHtml /\
+  default_mode [112; 47; 46; 104; 116; 109; 108] = MHtml /\
+  default_mode [120; 46; 104; 116; 109; 108; 46; 106; 50] = MHtml /\
+  default_mode [120; 46; 72; 84; 77; 76] = MNone /\
+  default_mode [120; 46; 104; 116; 109; 108; 46] = MNone /\
+  default_mode [97; 46; 104; 116; 109; 108; 46; 106; 50; 46; 106; 105; 110; 106; 97] = MNone /\
+  default_mode [] = MNone /\
+  default_mode [120; 46; 121; 109; 108; 46; 106; 105; 110; 106; 97; 50] = MJson.
+Proof. vm_compute. repeat split. Qed.
+
 (* non-vacuity: x = "<b>" flows through a macro, a set-block, upper and a loop *)
 Definition ex_ctx := mkCfg Lenient [(100, VStr false [60; 98; 62])] true.
 Definition ex_prog : list stmt :=
@@ -124,3 +159,7 @@ Print Assumptions no_double_escape_filter_block.
 Print Assumptions eval_does_not_write.
 Print Assumptions escape_idempotent_on_safe.
 Print Assumptions escape_filter_then_print.
+Print Assumptions default_mode_spec.
+Print Assumptions one_ignored_suffix_is_removed.
+Print Assumptions no_ignored_suffix_nothing_removed.
+Print Assumptions dot_ext_is_html.
